@@ -45,6 +45,18 @@ def observe(obj, x):
             encode(info.index)]
 
 
+def observe_array(obj, arr):
+    """same as observe but hands over the caller's ndarray object itself"""
+    with warnings.catch_warnings():
+        warnings.simplefilter('ignore')
+        try:
+            val, info = obj(arr)
+        except Exception as e:
+            return ['exc', type(e).__name__]
+    return ['ok', encode(val), encode(info.f_value), encode(info.error_estimate), encode(info.final_step),
+            encode(info.index)]
+
+
 if __name__ == '__main__':
     c = json.loads(sys.argv[1])
     obj = build(c['fname'], c['method'], c['n'], c['order'], c['gen'])
